@@ -1,7 +1,7 @@
 (* C16 — depth limit reached at exactly the same depth by every traversal; checked item accesses keep
    a traversal of a container that user code mutates in bounds. *)
 From OptreeModel Require Import Base Tree Flatten Unflatten Spec Depth.
-From OptreeProofs Require Import DepthProofs.
+From OptreeProofs Require Import DepthProofs ConstructProofs.
 
 (* For every configuration (predicate, registry, namespace, modes, limit) and every well-formed tree
    whose visited custom nodes behave: with d = the number of nested visits the traversal makes,
@@ -76,6 +76,14 @@ Theorem C16_unchecked_access_refuted :
   (exists script d, flatten_dict_mut false script d = Err Crash).
 Proof. split; [exact unchecked_list_refuted | exact unchecked_dict_refuted]. Qed.
 Print Assumptions C16_unchecked_access_refuted.
+
+(* more depth budget never changes a successful result: a tree that flattens under a limit flattens
+   to the same leaves and the same treespec under every larger limit (the limit only decides between a
+   result and RecursionError) *)
+Theorem C16_more_budget_same_result :
+  forall c fuel o r, flat c fuel o = Ok r -> flat c (S fuel) o = Ok r.
+Proof. exact flat_fuel_mono. Qed.
+Print Assumptions C16_more_budget_same_result.
 
 Example C16_example :
   let c := {| c_nil := false; c_ns := 0; c_pred := None; c_reg := []; c_ins := []; c_limit := 3 |} in
